@@ -1001,7 +1001,7 @@ FFLAGS_CHECK = ['-g', '-fcheck=bounds', '-fsanitize=address']
 ZERO_STACK = re.compile(r"Index '1' of dimension 1 of array 'zstack' above upper bound of 0")
 
 
-def compile_run(workdir, tag, sources, flags=(), timeout=60):
+def compile_run(workdir, tag, sources, flags=(), timeout=90):
     """gfortran build + run.  status: ok | compile-error | runtime-error | timeout.  A run that ends with exit status 0
     but without the final marker (a generated `STOP`: stack exhausted) is a runtime error."""
     d = os.path.join(workdir, tag)
@@ -1018,9 +1018,14 @@ def compile_run(workdir, tag, sources, flags=(), timeout=60):
     if c.returncode != 0:
         return 'compile-error', '', c.stderr[-3000:]
     env = dict(os.environ, ASAN_OPTIONS='detect_leaks=0:abort_on_error=0')
-    try:
-        r = subprocess.run(['./a.out'], cwd=d, capture_output=True, text=True, timeout=timeout, env=env)
-    except subprocess.TimeoutExpired:
+    r = None
+    for tmo in (timeout, 5 * timeout):       # the programs run in milliseconds: a time-out is box load, retried once
+        try:
+            r = subprocess.run(['./a.out'], cwd=d, capture_output=True, text=True, timeout=tmo, env=env)
+            break
+        except subprocess.TimeoutExpired:
+            continue
+    if r is None:
         return 'timeout', '', 'run timeout'
     if r.returncode != 0:
         return 'runtime-error', r.stdout, _first_diag(r.stderr)
